@@ -510,3 +510,67 @@ Section Proofs.
       unfold all_full in *. cbn [forallb full_transfer]. rewrite N.eqb_refl, forallb_app, F2, F. reflexivity.
   Qed.
 End Proofs.
+
+(* ---------- reset: the whole region is filled with the item, nothing else is touched ---------- *)
+Lemma blit_app {A} (xs ys : list A) : forall l i, blit l i (xs ++ ys) = blit (blit l i xs) (i + length xs) ys.
+Proof.
+  induction xs as [|x xs IH]; intros l i; cbn [app blit length]; [rewrite Nat.add_0_r; reflexivity|].
+  rewrite IH. f_equal. lia.
+Qed.
+
+Lemma writen_loop_ok : forall fuel st m addr item rest, nofault m -> 1 <= p_bsize st -> inwin m addr rest -> (N.to_nat rest <= fuel)%nat ->
+  exists m', writen_loop fuel st m addr item rest = (PSuccess, m') /\
+             m_img m' = blit (m_img m) (N.to_nat (addr - m_base m)) (repeat item (N.to_nat rest)) /\
+             m_base m' = m_base m /\ nofault m' /\
+             (forall e, In e (m_log m') -> In e (m_log m) \/ (let '(w, a, n, g) := e in w = true /\ addr <= a /\ a + n <= addr + rest /\ g = n)).
+Proof.
+  induction fuel as [|f IH]; intros st m addr item rest Hnf Hb Hin Hf.
+  - assert (rest = 0) by lia. subst rest. cbn [writen_loop N.eqb N.to_nat repeat blit]. exists m. split; [reflexivity|]. split; [reflexivity|]. split; [reflexivity|]. split; [exact Hnf|]. intros e He. left. exact He.
+  - cbn [writen_loop]. destruct (N.eqb_spec rest 0) as [->|Hr].
+    { cbn [N.to_nat repeat blit]. exists m. split; [reflexivity|]. split; [reflexivity|]. split; [reflexivity|]. split; [exact Hnf|]. intros e He. left. exact He. }
+    set (toput := if p_bsize st <? rest then p_bsize st else rest).
+    assert (Ht : 1 <= toput /\ toput <= rest) by (unfold toput; destruct (N.ltb_spec (p_bsize st) rest); lia). destruct Ht as [T1 T2].
+    destruct Hin as (I1 & I2 & I3).
+    destruct (med_write_ok m addr (repeat item (N.to_nat toput)) Hnf) as (m1 & Ew & Img1 & B1 & Nf1 & Log1).
+    { rewrite repeat_length, N2Nat.id. unfold inwin. lia. }
+    rewrite repeat_length, N2Nat.id in Ew, Log1. rewrite Ew, N.eqb_refl. cbn [negb].
+    rewrite wrap32_small by lia.
+    destruct (IH st m1 (addr + toput) item (rest - toput) Nf1 Hb) as (m' & E & Img & B & Nf & Log).
+    { unfold inwin. rewrite B1, Img1, blit_length. lia. }
+    { lia. }
+    exists m'. split; [exact E|]. split.
+    + rewrite Img, Img1, B1.
+      replace (N.to_nat rest) with (N.to_nat toput + N.to_nat (rest - toput))%nat by lia.
+      rewrite repeat_app, blit_app, repeat_length. f_equal. lia.
+    + split; [congruence|]. split; [exact Nf|].
+      intros e He. destruct (Log e He) as [H1|H1].
+      * rewrite Log1 in H1. apply in_app_or in H1 as [H1|[<-|[]]]; [left; exact H1|right]. repeat split; lia.
+      * right. destruct e as [[[w a] n] g]. destruct H1 as (-> & A1 & A2 & ->). repeat split; lia.
+Qed.
+
+Theorem reset_spec st m item : nofault m -> (p_csize st = 2 \/ p_csize st = 4) -> 1 <= p_bsize st ->
+  m_base m <= p_caddr st -> p_caddr st + p_csize st + p_dsize st <= m_base m + N.of_nat (length (m_img m)) ->
+  p_caddr st + p_csize st + p_dsize st < 2 ^ 32 ->
+  exists m', reset st m item = (PSuccess, m') /\
+             m_img m' = blit (m_img m) (N.to_nat (p_caddr st - m_base m)) (repeat item (N.to_nat (p_csize st + p_dsize st))) /\
+             m_base m' = m_base m /\ nofault m' /\
+             (* every access of the reset is a complete write inside the region *)
+             (forall e, In e (m_log m') -> In e (m_log m) \/
+                        (let '(w, a, n, g) := e in w = true /\ p_caddr st <= a /\ a + n <= p_caddr st + p_csize st + p_dsize st /\ g = n)).
+Proof.
+  intros Hnf Hc Hb H1 H2 H3. unfold reset.
+  destruct (writen_loop_ok (S (N.to_nat (p_csize st))) st m (p_caddr st) item (p_csize st) Hnf Hb) as (m1 & E1 & Img1 & B1 & Nf1 & Log1).
+  { unfold inwin. lia. } { lia. }
+  rewrite E1.
+  assert (Hd : p_daddr st = p_caddr st + p_csize st) by (unfold p_daddr; apply wrap32_small; lia).
+  destruct (writen_loop_ok (S (N.to_nat (p_dsize st))) st m1 (p_daddr st) item (p_dsize st) Nf1 Hb) as (m2 & E2 & Img2 & B2 & Nf2 & Log2).
+  { unfold inwin. rewrite B1, Img1, blit_length, Hd. lia. } { lia. }
+  exists m2. split; [exact E2|]. split.
+  - rewrite Img2, Img1, B1, Hd.
+    replace (N.to_nat (p_csize st + p_dsize st)) with (N.to_nat (p_csize st) + N.to_nat (p_dsize st))%nat by lia.
+    rewrite repeat_app, blit_app, repeat_length. f_equal. lia.
+  - split; [congruence|]. split; [exact Nf2|].
+    intros e He. destruct (Log2 e He) as [Hl|Hl].
+    + destruct (Log1 e Hl) as [Hl1|Hl1]; [left; exact Hl1|right]. destruct e as [[[w a] n] g]. destruct Hl1 as (-> & A1 & A2 & ->). repeat split; lia.
+    + right. destruct e as [[[w a] n] g]. destruct Hl as (-> & A1 & A2 & ->). rewrite Hd in *. repeat split; lia.
+Qed.
